@@ -169,16 +169,89 @@ def option_declarations(ck):
     parse = p.lookup_method(args_cls, "parse", None)
     if parse is None:
         raise AnalysisError("Args.parse not found")
+    import copy
     nodes = []
     seen = set()
     fns = [parse] + [f for f in p.nontest_functions() if f.module is parse.module and f is not parse]
+
+    class _Subst(ast.NodeTransformer):
+        def __init__(self, mapping):
+            self.mapping = mapping
+
+        def visit_Name(self, n):
+            if isinstance(n.ctx, ast.Load) and n.id in self.mapping:
+                return copy.deepcopy(self.mapping[n.id])
+            return n
+
+        def visit_Subscript(self, n):
+            self.generic_visit(n)
+            if isinstance(n.value, (ast.List, ast.Tuple)) and isinstance(n.slice, ast.Constant) and isinstance(n.slice.value, int) \
+                    and -len(n.value.elts) <= n.slice.value < len(n.value.elts):
+                return n.value.elts[n.slice.value]
+            return n
+
+        def visit_BinOp(self, n):
+            self.generic_visit(n)
+            if isinstance(n.op, ast.Add) and isinstance(n.left, ast.Constant) and isinstance(n.right, ast.Constant) \
+                    and isinstance(n.left.value, str) and isinstance(n.right.value, str):
+                return ast.copy_location(ast.Constant(value=n.left.value + n.right.value), n)
+            return n
+
+    def literal(e):
+        return isinstance(e, ast.Constant) or (isinstance(e, (ast.List, ast.Tuple)) and all(literal(x) for x in e.elts))
+
+    def local_literals(fnode):
+        # names of the function bound exactly once, to a literal
+        stores = {}
+        for n in ast.walk(fnode):
+            if isinstance(n, ast.Name) and isinstance(n.ctx, ast.Store):
+                stores[n.id] = stores.get(n.id, 0) + 1
+        out = {}
+        for n in ast.walk(fnode):
+            if isinstance(n, ast.Assign) and len(n.targets) == 1 and isinstance(n.targets[0], ast.Name) and stores.get(n.targets[0].id) == 1 \
+                    and literal(n.value):
+                out[n.targets[0].id] = n.value
+        return out
     for f in fns:
+        consts = local_literals(f.node)
+        # helpers (nested or module-level functions of this module) that declare an option from their parameters: one declaration per
+        # call of the helper, with the call's arguments in place of the parameters
+        helpers = {}
+        for n in ast.walk(f.node):
+            if isinstance(n, ast.FunctionDef) and n is not f.node:
+                helpers[n.name] = n
+        inside_helper = set()
+        for h in helpers.values():
+            for n in ast.walk(h):
+                if isinstance(n, ast.Call) and isinstance(n.func, ast.Attribute) and n.func.attr == "add_argument":
+                    inside_helper.add(id(n))
         for n in ast.walk(f.node):
             if id(n) in seen:
                 continue
             seen.add(id(n))
-            if isinstance(n, ast.Call) and isinstance(n.func, ast.Attribute) and n.func.attr == "add_argument":
-                nodes.append(n)
+            if isinstance(n, ast.Call) and isinstance(n.func, ast.Attribute) and n.func.attr == "add_argument" and id(n) not in inside_helper:
+                nodes.append(_Subst(consts).visit(copy.deepcopy(n)) if consts else n)
+            if isinstance(n, ast.Call) and isinstance(n.func, ast.Name) and n.func.id in helpers:
+                h = helpers[n.func.id]
+                from ..callgraph import bind_args as _bind
+                from ..loader import Param as _P
+                hp = [x.arg for x in h.args.posonlyargs + h.args.args]
+                if any(isinstance(a, ast.Starred) for a in n.args) or any(k.arg is None for k in n.keywords) or len(n.args) > len(hp):
+                    raise AnalysisError(f"{where(f, n)}: call of the option helper {h.name} is not understood")
+                mapping = dict(consts)
+                for name, a in zip(hp, n.args):
+                    mapping[name] = a
+                for k in n.keywords:
+                    mapping[k.arg] = k.value
+                defaults = h.args.defaults
+                for name, dflt in zip(hp[len(hp) - len(defaults):], defaults):
+                    mapping.setdefault(name, dflt)
+                for m in ast.walk(h):
+                    if isinstance(m, ast.Call) and isinstance(m.func, ast.Attribute) and m.func.attr == "add_argument":
+                        new = _Subst(mapping).visit(copy.deepcopy(m))
+                        ast.copy_location(new, n)
+                        ast.fix_missing_locations(new)
+                        nodes.append(new)
     return parse, nodes
 
 
